@@ -168,9 +168,14 @@ Fixpoint c13_pairs (h : list (sop * sres)) : bool :=
   | (o1, r1) :: rest =>
       (match o1, r1, rest with
        | SGetAll ns, REntries l, (SHeads ns', RHeads hd) :: _ =>
-           negb (ns =? ns') || list_eqb nn_eqb hd (heads_spec l)
+           negb (ns =? ns')
+           || (list_eqb nn_eqb (map fst hd) (heads_spec l)
+               (* the head names an entry that is held: this author's, at this timestamp, under this key
+                  (which one of several at the same timestamp is not specified) *)
+               && forallb (fun h => let '(a, t, k) := h in
+                             existsb (fun e => (e_author e =? a) && (e_ts e =? t) && bytes_eqb (e_key e) k) l) hd)
        | SHeads ns, RHeads ours, (SHasNews ns' theirs, RNews n) :: _ =>
-           negb (ns =? ns') || (n =? news_spec theirs ours)
+           negb (ns =? ns') || (n =? news_spec theirs (map fst ours))
        | _, _, _ => true
        end) && c13_pairs rest
   end.
@@ -224,16 +229,26 @@ Fixpoint c16_scan (dl : nat) (t : track) (h : list (sop * sres)) (prev : list (s
 
 (** ---- C18: the harness brackets every (wipe-and-)reopen by two identical dumps (contents,
          heads, key-ordered and latest-per-key queries); the answers must not change ---- *)
-Definition c18_same (before after : list (sop * sres)) : bool :=
+(** after a rebuild of the head table the head's key may be another of the author's entries at the same
+    (greatest) timestamp -- a store that maintained its heads all along could hold either, depending on
+    the order of arrival; that the key names a held entry is checked by [c13_pairs] *)
+Definition c18_res_same (rebuilt_heads : bool) (a b : sres) : bool :=
+  match a, b with
+  | RHeads x, RHeads y => if rebuilt_heads then list_eqb nn_eqb (map fst x) (map fst y) else sres_eqb a b
+  | _, _ => sres_eqb a b
+  end.
+Definition c18_same (rebuilt_heads : bool) (before after : list (sop * sres)) : bool :=
   Nat.eqb (length before) (length after)
-  && forallb (fun ba => sres_eqb (snd (fst ba)) (snd (snd ba))) (combine before after).
+  && forallb (fun ba => c18_res_same rebuilt_heads (snd (fst ba)) (snd (snd ba))) (combine before after).
 Fixpoint c18_scan (dl : nat) (h : list (sop * sres)) (prev : list (sop * sres)) : bool :=
   match h with
   | [] => true
   | (o, r) :: rest =>
       (match o with
-       | SWipeReopen _ _ | SReopen =>
-           match r with RUnit => c18_same (rev (firstn dl prev)) (firstn dl rest) | _ => false end
+       | SWipeReopen l _ =>
+           match r with RUnit => c18_same l (rev (firstn dl prev)) (firstn dl rest) | _ => false end
+       | SReopen =>
+           match r with RUnit => c18_same false (rev (firstn dl prev)) (firstn dl rest) | _ => false end
        | _ => true
        end) && c18_scan dl rest ((o, r) :: prev)
   end.
@@ -252,7 +267,7 @@ Definition spec_ok (c : case) : bool :=
   else if c_prop c =? 16 then c16_scan (4 * length (c_ids c) + 2) tr0 h []
                               && forallb (fun p => match snd p with RBadFingerprint => false | _ => true end) h
   else if c_prop c =? 17 then scan c17_ok tr0 h
-  else if c_prop c =? 18 then c18_scan (N.to_nat (nth 0 (c_ids c) 0)) h []
+  else if c_prop c =? 18 then c18_scan (N.to_nat (nth 0 (c_ids c) 0)) h [] && c13_pairs h
   else true.
 
 Definition check (c : case) : N :=
